@@ -27,6 +27,7 @@ from windpyutils.structures.caches import LFUCache
 
 
 class LFUSpec(CacheSpec):
+    iterlook_views = ("keys",)      # every look-up raises a use count: one view keeps the state space in bounds
     cls = LFUCache
     cls_name = "LFUCache"
     import_line = "from windpyutils.structures.caches import LFUCache"
